@@ -23,6 +23,12 @@ TReset ==
   /\ replies' = <<>> /\ accepted' = [n \in Names |-> <<>>]
   /\ dev' = FALSE /\ l' = l + 1
 
+\* a file the driver put there before the first request of this history
+TPre ==
+  /\ l <= N /\ ~dev /\ E.e = "pre" /\ workers = <<>>
+  /\ disk' = [disk EXCEPT ![E.name] = Pre(E.k)]
+  /\ UNCHANGED <<workers, clients, replies, accepted, dev>> /\ l' = l + 1
+
 TWrq ==
   /\ l <= N /\ ~dev /\ E.e = "wrq"
   /\ LWrq(E.ep, E.name)
@@ -44,7 +50,7 @@ DiskMatches ==
   ELSE d.st = "file" /\ d.by = E.by /\ d.k = E.k /\ d.mixed = E.mixed
 TDisk == l <= N /\ ~dev /\ E.e = "disk" /\ DiskMatches /\ UNCHANGED <<svars, dev>> /\ l' = l + 1
 
-Matched == TWrq \/ TOpened \/ TBlock \/ TFinish \/ TFail \/ TDisk
+Matched == TPre \/ TWrq \/ TOpened \/ TBlock \/ TFinish \/ TFail \/ TDisk
 
 Label ==
   CASE E.e = "disk" ->
@@ -52,6 +58,7 @@ Label ==
                              /\ LaterOpened(id)
          THEN "C13:FailureOfEarlierTransferDamagedLaterUpload"
          ELSE IF \E id \in Ids : workers[id].phase = "failed" /\ workers[id].name = E.name THEN "C13:CleanupAfterFailure"
+         ELSE IF accepted[E.name] # <<>> /\ workers[Last(accepted[E.name])].phase = "done" THEN "C13,C02,C06:CompletedUploadContent"
          ELSE "C02:DiskContent"
     [] E.e = "wrq" -> "C06:WriteRequestReply"
     [] OTHER -> "C13:WorkerLifeCycle"
